@@ -683,6 +683,34 @@ fn forged_sub_tree_variants(
                 emit("proof_leaf_injected_in_sub_proof", q);
             }
         }
+        // fake leaf listed at the POSITION of a genuine leaf (the tree verification keeps one entry
+        // per position, membership answers from the whole list): every target leaf x every place
+        // in the list - right before / right after the genuine entry, or apart from it
+        for (level, path) in [("sub_proof", Some(pos)), ("master_proof", None)] {
+            let list = match path {
+                Some(p) => pv["sub_proofs"][p][1]["master_proof"]["inner_leaves"].clone(),
+                None => pv["master_proof"]["inner_leaves"].clone(),
+            };
+            let Some(list) = list.as_array().cloned() else { continue };
+            if list.is_empty() || list.len() > 8 {
+                continue;
+            }
+            for t in 0..list.len() {
+                for ins in 0..=list.len() {
+                    let mut l = list.clone();
+                    l.insert(ins, json!([list[t][0].clone(), node_value(fake_leaf)]));
+                    let mut v = pv.clone();
+                    match path {
+                        Some(p) => v["sub_proofs"][p][1]["master_proof"]["inner_leaves"] = Value::Array(l),
+                        None => v["master_proof"]["inner_leaves"] = Value::Array(l),
+                    }
+                    let where_ = if ins == t || ins == t + 1 { "next_to_the_genuine_entry" } else { "apart_from_the_genuine_entry" };
+                    if let Some(q) = value_proof(&v) {
+                        emit(&format!("proof_leaf_injected_at_an_occupied_position_in_{level}_{where_}"), q);
+                    }
+                }
+            }
+        }
         // a leaf of the honest sub-proof replaced by the fake leaf
         let mut v = pv.clone();
         if let Some(leaves) = v["sub_proofs"][pos][1]["master_proof"]["inner_leaves"].as_array_mut() {
